@@ -32,14 +32,15 @@ ASSUMPTIONS = [
     'UPPER/LOWER are modelled for ASCII and Latin-1 letters; for all other code points only the idempotence oracle '
     'runs on the implementation (every code point in the thorough tier); Python str.upper/lower are idempotent on '
     'every single code point (checked), so characters such as U+00DF are inside the property and pass',
-    'numbers given as text arguments are binary64 values rendered by Python repr (model: Ops.renderNum); only dyadic '
-    'values of moderate size are generated there',
+    'numbers given as text arguments are binary64 values (token = exact rational of the double) rendered by Python '
+    'repr (model: Ops.renderNum, shortest round-trip digits, exponent notation, integral floats as ints); subnormals '
+    'and inf/nan are not generated',
     'TEXT: a float stands for the decimal its shortest repr shows (|k| < 10^9, j <= 6); formats restricted to the '
     'canonical grammar %* [#,]*[0,]* (.0*#*)? %* (other mixes of the five symbols are outside the model)',
     'FIND of an empty needle: the model follows the code (position = start_num while start_num <= LEN+1)',
 ]
 TRUSTED = ['modelled, not verified: str slicing/find/replace, re.sub, Decimal.quantize/format, float repr']
-REQUIRED_BUCKETS = ['left', 'right', 'mid', 'replace', 'find', 'substitute', 'trim', 'upper', 'lower', 'exact', 'len',
+REQUIRED_BUCKETS = ['float-as-text', 'left', 'right', 'mid', 'replace', 'find', 'substitute', 'trim', 'upper', 'lower', 'exact', 'len',
                     'concatenate', 'amp', 'text', 'text:tie', 'left:negative', 'mid:negative', 'number-as-text',
                     'fractional-count', 'malformed']
 EXHAUSTIVE = False
@@ -116,6 +117,18 @@ def text_values(tier, rng):
         # an exact tie at a random digit
         out.add(Fraction(rng.randint(0, 99999) * 10 + 5, 10 ** rng.randint(1, 5)) * rng.choice((1, -1)))
     return sorted(out)
+
+
+def float_pool(rng, thorough):
+    """doubles whose rendering is delicate: repr needs 16-17 digits, exponent notation, big integral floats, -0.0"""
+    xs = [1 / 3, 0.1 + 0.2, 1.1 * 1.1, 2 / 3 * 100, 1 / 7, -1 / 3, 100 / 3, 0.1, 0.7, 4.35, 2.675, 1e16, 1e15 + 0.5,
+          1e-5, 2.5e-5, 1.5e-7, 1.5e300, 1e22, 1e23, -1e16, 123456789.12345679, 1234567.1, 0.000123, 1e-4, 9.999e-5,
+          9007199254740993.0, 0.30000000000000004, 1e16 + 2.0, 12345678901234567.0, 1.2345678901234567e-10, 3.0,
+          -0.0, 1e15, 999999999999999.9, 2 ** 0.5, 5e-300, 1.7976931348623157e308]
+    for _ in range(400 if thorough else 25):
+        xs.append(rng.random() * 10 ** rng.randint(-6, 17) * rng.choice((1, -1)))
+        xs.append(rng.randint(1, 999) / rng.randint(1, 999))
+    return xs
 
 
 # ---------------------------------------------------------------------------------------------------------------
@@ -230,6 +243,39 @@ def cases(tier, rng):
         yield case('find', [n_(2), v], fl=[1] if f else [])
         yield case('substitute', [v, n_(2), n_(Fraction(1, 2))], fl=fl)
         yield case('exact', [v, S_('3')], fl=fl)
+    # --- binary floats as text arguments: 16-17 significant digits, results of float arithmetic, exponent notation,
+    #     integral floats of large magnitude, negative zero.  The token is the EXACT rational of the double.
+    for x in float_pool(rng, thorough):
+        tok = core.enc(x)
+        integral = x == int(x)
+        fl = [0] if integral else []
+        nz = [0] if (x == 0 and str(x) == '-0.0') else []
+        mk = lambda fn, args, fl=fl, nz=nz, **kw: dict(case(fn, args, fl=fl, **kw), **({'nz': nz} if nz else {}))  # noqa
+        second = lambda fn, args: dict(case(fn, args, fl=[1] if integral else []), **({'nz': [1]} if nz else {}))  # noqa
+        yield mk('concatenate', [tok])
+        yield mk('concatenate', [tok, S_('')])
+        yield mk('amp', [tok, S_('')])
+        yield second('concatenate', [S_('a'), tok])
+        yield second('amp', [S_('a'), tok])
+        yield mk('concatenate', [tok, S_('')], via='f')
+        for fn in ('trim', 'upper', 'lower', 'len'):
+            yield mk(fn, [tok])
+        yield mk('len', [tok], via='f')
+        yield mk('exact', [tok, S_(repr(x))])
+        yield mk('exact', [tok, S_('%.15g' % x)])
+        yield dict(case('exact', [tok, tok], fl=[0, 1] if integral else []), **({'nz': [0, 1]} if nz else {}))
+        for n in (0, 1, 2, 3, 5, 15, 16, 17, 18, 19, 25, 400):
+            yield mk('left', [tok, n_(n)])
+            yield mk('right', [tok, n_(n)])
+            yield mk('mid', [tok, n_(n + 1), n_(400)])
+            yield mk('mid', [tok, n_(max(n, 1)), n_(3)])
+        yield mk('replace', [tok, n_(3), n_(2), S_('x')])
+        yield mk('replace', [tok, n_(17), n_(5), S_('')])
+        for needle in ('.', '3', 'e', '-', '04', '33333'):
+            yield second('find', [S_(needle), tok])
+            yield second('find', [S_(needle), tok, n_(10)])
+            yield mk('substitute', [tok, S_(needle), S_('x')])
+            yield mk('substitute', [tok, S_(needle), S_('x'), n_(2)])
     # --- fractional counts (truncated like Excel; negative ones are #VALUE!)
     fr = [Fraction(1, 2), Fraction(3, 2), Fraction(11, 4), Fraction(-1, 2), Fraction(41, 4), Fraction(-3, 2),
           Fraction(1, 4), Fraction(3, 4)]
@@ -293,7 +339,8 @@ def _py(tok, as_float=False):
 
 def _pyargs(c):
     fl = set(c.get('fl', ()))
-    return [_py(t, i in fl) for i, t in enumerate(c['args'])]
+    nz = set(c.get('nz', ()))
+    return [-0.0 if i in nz else _py(t, i in fl) for i, t in enumerate(c['args'])]
 
 
 XL = {'left': 'LEFT', 'right': 'RIGHT', 'mid': 'MID', 'replace': 'REPLACE', 'find': 'FIND',
@@ -548,6 +595,22 @@ def oracles(results):
             msg = text_oracle(core.dec(a[0]), core.dec(a[1]), out)
             if msg:
                 yield c, msg
+    # float arithmetic inside the formula: CONCATENATE(x,"") = x&"" and the slicing partition against x&""
+    for e in ('1/3', '0.1+0.2', '1.1*1.1', '2/3*100', '1/7', '10/4', '2^0.5', '1/3*1E+20', '1/3/100000'):
+        try:
+            amp = pyc.eval_formula(f'=({e})&""')
+            cat = pyc.eval_formula(f'=CONCATENATE({e},"")')
+            part = pyc.eval_formula(f'=LEFT({e},3)&MID({e},4,400)')
+            rgt = pyc.eval_formula(f'=LEFT({e},LEN(({e})&"")-2)&RIGHT({e},2)')
+            exa = pyc.eval_formula(f'=EXACT({e},({e})&"")')
+            low = pyc.eval_formula(f'=LOWER({e})')
+        except Exception as exc:   # noqa
+            yield case('concatenate', [S_('=' + e)]), f'formula over {e} raised {type(exc).__name__}'
+            continue
+        if not (amp == cat == part == rgt == low and exa is True):
+            yield case('concatenate', [S_('=' + e)]), \
+                (f'x = {e}: x&"" = {amp!r}, CONCATENATE(x,"") = {cat!r}, LEFT&MID = {part!r}, LEFT&RIGHT = {rgt!r}, '
+                 f'LOWER = {low!r}, EXACT(x, x&"") = {exa!r}')
     # idempotence of UPPER / LOWER / TRIM on the implementation alone, beyond the model's alphabet
     cps = range(0x110000) if _TIER[0] == 'thorough' else itertools.chain(range(0x800), range(0x1E00, 0x2200), range(0xFB00, 0xFB10))
     for cp in cps:
@@ -561,7 +624,7 @@ def oracles(results):
 
 
 def finding_key(c, impl_out, model_out):
-    if c['fn'] == 'len' and c.get('fl') == [0] and c['args'][0].startswith('n:') and c['args'][0].endswith('/1'):
+    if c['fn'] == 'len' and (c.get('fl') == [0] or c.get('nz') == [0]) and c['args'][0].startswith('n:') and c['args'][0].endswith('/1'):
         return 'len.integral-float'
     return None
 
@@ -591,6 +654,9 @@ def bucket(c):
         return 'fractional-count'
     if fn in ('left', 'right', 'mid', 'replace') and any(q < 0 for q in qs):
         return ('left' if fn in ('left', 'right') else 'mid') + ':negative'
+    if any(k == 'n' and core.dec(a[i]).denominator not in (1, 2, 4, 8) for i, k in enumerate(kinds)
+           if i not in pos) or c.get('nz'):
+        return 'float-as-text'
     if kinds and kinds[0] == 'n' and fn not in ('concatenate', 'amp', 'exact'):
         return 'number-as-text'
     return fn
